@@ -37,7 +37,7 @@ def idle_of(name, ns):
             'AwesomeOscillator': n(1) - 1, 'ChaikinOscillator': n(1) - 1, 'StochasticOscillator': n(0) + n(1) - 2,
             'StochasticRsi': 2 * n(0) - 1, 'Po': 2 * n(0) - 2, 'UlcerIndex': 2 * n(0) - 2, 'Rsi': n(0), 'Emv': n(0),
             'Fi': n(0), 'Mfi': n(0), 'ChandelierExit': n(0), 'KeltnerChannel': n(0), 'Nvi': 1, 'Vpt': 1,
-            'Atr': n(1) + 3, 'SuperTrend': n(1) + 3, 'Envelope': n(1), 'Hma': n(0) + 3,
+            'Atr': n(1) + 3, 'SuperTrend': n(1) + 3, 'KeltnerChannelG': n(1) + 3, 'StochasticRsiG': n(0) + n(1) - 1, 'Envelope': n(1), 'Hma': n(0) + 3,
         }.get(name, max(0, n(0) - 1) if ns else 0)
     except Exception:
         return 0
@@ -420,6 +420,10 @@ def check_c01(res, tier, replay):
     for comp, f in findings.items():
         if known_seen.get(comp):
             res.known_hit.append(known_line(f) + ' [witness and %d generated cases differ from the documented formula, equal to the as-is model]' % known_seen[comp])
+    if not replay:
+        zi_n, zi_bad = check_int_indicators(res, rng, tier, 'C01')
+        bad_cases += zi_bad
+        res.coverage['integer_element_type_cases'] = zi_n
     res.samples = [{'case': lines[i][:240] + '…', 'go': go.get(lines[i].split(' ')[0], '')[:200]} for i in (0, len(lines) // 2)] if lines else []
     res.coverage.update({
         'evaluations': len(cases), 'distinct_nontrivial': len(cells),
@@ -504,6 +508,10 @@ def check_c02(res, tier, replay):
     for comp, f in findings.items():
         if known_seen.get(comp):
             res.known_hit.append(known_line(f) + ' [%d cases]' % known_seen[comp])
+    if not replay:
+        zi_n, zi_bad = check_int_indicators(res, rng, tier, 'C02')
+        bad_cases += zi_bad
+        res.coverage['integer_element_type_cases'] = zi_n
     if not replay:
         # the warm-up follows the *current* configuration: an instance re-configured after a first Compute emits what a fresh one does
         from c_runtime import check_reconf
@@ -630,14 +638,135 @@ def c04_pass(res, rng, tier, base, stats, report_corr=True):
     stats['samples'] += [{'kind': d[0], 'cut': d[2], 'name': d[3][0], 'ns': d[3][1], 'n': len(base[d[1]][3][0])} for d in derived[:3]]
 
 
+# =====================================================================================  integer element types
+INT_SAFE = {   # indicators whose formula needs at most one final division by a constant: name -> (inputs, has period)
+    'Sma': (1, True), 'MovingSum': (1, True), 'MovingMax': (1, True), 'MovingMin': (1, True), 'DonchianChannel': (1, True),
+    'TypicalPrice': (3, False), 'WeightedClose': (3, False), 'Qstick': (2, True),
+}
+
+
+def tdiv(a, b):
+    q = abs(a) // abs(b)
+    return q if (a >= 0) == (b >= 0) else -q
+
+
+def int_formula(name, p, ins):
+    """documented formula on integers: exact arithmetic, one truncating division at the end"""
+    x = ins[0]
+    n = min(len(s) for s in ins)
+    win = lambda s, i: s[i - p + 1:i + 1]
+    if name == 'Sma':
+        return [[tdiv(sum(win(x, i)), p) for i in range(p - 1, n)]]
+    if name == 'MovingSum':
+        return [[sum(win(x, i)) for i in range(p - 1, n)]]
+    if name == 'MovingMax':
+        return [[max(win(x, i)) for i in range(p - 1, n)]]
+    if name == 'MovingMin':
+        return [[min(win(x, i)) for i in range(p - 1, n)]]
+    if name == 'DonchianChannel':
+        u = [max(win(x, i)) for i in range(p - 1, n)]
+        l = [min(win(x, i)) for i in range(p - 1, n)]
+        return [u, [tdiv(a + b, 2) for a, b in zip(u, l)], l]
+    if name == 'TypicalPrice':
+        return [[tdiv(ins[0][i] + ins[1][i] + ins[2][i], 3) for i in range(n)]]
+    if name == 'WeightedClose':
+        return [[tdiv(ins[0][i] + ins[1][i] + 2 * ins[2][i], 4) for i in range(n)]]
+    if name == 'Qstick':
+        d = [ins[1][i] - ins[0][i] for i in range(n)]
+        return [[tdiv(sum(win(d, i)), p) for i in range(p - 1, n)]]
+    raise KeyError(name)
+
+
+def check_int_indicators(res, rng, tier, prop):
+    """the library is generic over helper.Number: the integer instantiation of the integer-safe indicators against the
+    Lean model evaluated at Int (truncating division) and against the documented formula in exact arithmetic.
+    Returns (cases, bad)."""
+    cases = []
+    for name, (k, has_p) in INT_SAFE.items():
+        for j in range(6 if tier == 'quick' else 60):
+            p = rng.choice([1, 2, 3, 4, 5, 7, 10]) if has_p else 0
+            n = rng.choice([0, 1, p, p + 1, rng.randrange(0, 3 * p + 25)]) if j % 6 in (0, 5) else rng.randrange(p + 1, 3 * p + 25)
+            kind = ['small', 'odd', 'flat', 'signed', 'big', 'small'][j % 6]
+            def val():
+                if kind == 'small':
+                    return rng.randrange(1, 200)
+                if kind == 'odd':
+                    return 2 * rng.randrange(1, 100) + 1
+                if kind == 'signed':
+                    return rng.randrange(-300, 300)
+                if kind == 'big':
+                    return 2 ** 53 + rng.randrange(1, 1000)      # not representable in float64
+                return 101
+            if k == 3:      # low <= close <= high
+                h, l, c = [], [], []
+                for _ in range(n):
+                    a, b, d = sorted(val() for _ in range(3))
+                    l.append(a); c.append(b); h.append(d)
+                ins = [h, l, c]
+            else:
+                ins = [[val() for _ in range(n)] for _ in range(k)]
+            cases.append((name, [p] if has_p else [], ins, kind))
+    fmt = lambda ins: ';'.join(','.join(str(v) for v in s) if s else '-' for s in ins)
+    gl = ['z%d INDI %s %s %s' % (i, c[0], il(c[1]), fmt(c[2])) for i, c in enumerate(cases)]
+    ml = ['z%d INDZ %s %s %s' % (i, c[0], il(c[1]), fmt(c[2])) for i, c in enumerate(cases)]
+    go, model = vlib.run_go(gl), vlib.run_model(ml)
+    bad = 0
+    def parse(t):
+        if not t.startswith('ok idle='):
+            return None, None
+        head, body = t.split(' | ')
+        return int(head.split('=')[1]), [[] if s == '-' else [int(v) for v in s.split(',')] for s in body.split(';')]
+    for i, c in enumerate(cases):
+        gi, g = parse(go.get('z%d' % i, 'missing'))
+        mi, m = parse(model.get('z%d' % i, 'missing'))
+        name, ns, ins, kind = c
+        p = ns[0] if ns else 1
+        n = min(len(s) for s in ins)
+        problem = None
+        if g is None:
+            problem = 'integer instantiation did not run: ' + go.get('z%d' % i, 'missing')[:200]
+        elif m is None:
+            res.violation({'broken': 'correspondence', 'name': 'INDZ ' + name, 'lines': [ml[i].split(' ', 1)[1]], 'model_output': model.get('z%d' % i, 'missing')[:200]}, True)
+            bad += 1
+            continue
+        else:
+            want = int_formula(name, p, ins) if n >= p else [[] for _ in g]
+            if prop == 'C02':
+                w = gi if gi >= 0 else mi
+                if any(len(o) != max(0, n - w) for o in g):
+                    problem = 'integer instantiation emits %s values for n=%d, idle=%d' % ([len(o) for o in g], n, w)
+            elif prop == 'C15':
+                if name == 'DonchianChannel' and any(not (a >= b >= d) for a, b, d in zip(*g)):
+                    j = next(j for j, (a, b, d) in enumerate(zip(*g)) if not (a >= b >= d))
+                    problem = 'integer Donchian bands out of order at %d: upper=%d middle=%d lower=%d' % (j, g[0][j], g[1][j], g[2][j])
+                if name in ('MovingMax', 'MovingMin') and g != want:
+                    problem = 'integer %s is not the window extreme: go=%s expected=%s' % (name, g[0][:8], want[0][:8])
+            else:
+                if g != want:
+                    o = next(o for o in range(len(want)) if o >= len(g) or g[o] != want[o])
+                    problem = 'integer instantiation differs from the documented formula (exact arithmetic, truncated): output %d go=%s expected=%s' % (
+                        o, (g[o] if o < len(g) else None) and g[o][:8], want[o][:8])
+            if problem is None and g != m:
+                res.violation({'broken': 'correspondence', 'name': 'INDI/INDZ ' + name, 'lines': [gl[i].split(' ', 1)[1]],
+                               'go_output': str(g)[:300], 'model_output': str(m)[:300]}, True)
+                bad += 1
+                continue
+        if problem:
+            bad += 1
+            if bad <= 8:
+                res.violation({'lines': [gl[i].split(' ', 1)[1]], 'problem': problem, 'int_case': {'name': name, 'ns': ns, 'inputs': ins, 'kind': kind},
+                               'oracle': 'integer element type: documented formula in exact arithmetic with one truncating division = Lean model at Int'})
+    return len(cases), bad
+
+
 # =====================================================================================  C15
 RANGE = {   # indicator -> list of (output index, lo, hi)
     'Rsi': [(0, 0, 100)], 'Mfi': [(0, 0, 100)], 'StochasticOscillator': [(0, 0, 100), (1, 0, 100)],
-    'Aroon': [(0, 0, 100), (1, 0, 100)], 'WilliamsR': [(0, -100, 0)], 'StochasticRsi': [(0, 0, 1)],
+    'Aroon': [(0, 0, 100), (1, 0, 100)], 'WilliamsR': [(0, -100, 0)], 'StochasticRsi': [(0, 0, 1)], 'StochasticRsiG': [(0, 0, 1)],
     'Mfm': [(0, -1, 1)], 'Cmf': [(0, -1, 1)], 'Bop': [(0, -1, 1)],
     'MovingStd': [(0, 0, None)], 'Atr': [(0, 0, None)], 'UlcerIndex': [(0, 0, None)], 'BollingerBandWidth': [(0, 0, None)],
 }
-BANDS = {'BollingerBands': (0, 1, 2), 'KeltnerChannel': (0, 1, 2), 'DonchianChannel': (0, 1, 2),
+BANDS = {'BollingerBands': (0, 1, 2), 'KeltnerChannel': (0, 1, 2), 'KeltnerChannelG': (0, 1, 2), 'DonchianChannel': (0, 1, 2),
          'AccelerationBands': (0, 1, 2), 'Envelope': (0, 1, 2)}
 
 
@@ -650,7 +779,7 @@ def leq(a, b, scale):
 
 # indicators whose defining formula has a data-dependent denominator: a non-finite value there is exempt.
 # For all the others (std, ATR, bands, moving min/max, Aroon …) a NaN/Inf IS a violation: nothing divides by data.
-NAN_OK = {'Rsi', 'Mfi', 'StochasticOscillator', 'WilliamsR', 'StochasticRsi', 'Mfm', 'Cmf', 'Bop', 'BollingerBandWidth',
+NAN_OK = {'Rsi', 'Mfi', 'StochasticOscillator', 'WilliamsR', 'StochasticRsi', 'StochasticRsiG', 'Mfm', 'Cmf', 'Bop', 'BollingerBandWidth',
           'UlcerIndex'}
 
 
@@ -734,7 +863,7 @@ def c15_eval(res, cases, lines, go, findings, stats):
         n = len(c[3][0]) if c[3] else 0
         stats['cells'].add((name, tuple(c[1]), c[4], min(n // 10, 10)))
         if problem:
-            f = findings.get(name)
+            f = findings.get(name) or (findings.get('Atr') if name == 'KeltnerChannelG' else None)   # same ATR: a Hull ATR may be negative
             cond = (f or {}).get('condition', {})
             if f and ('ns0' not in cond or (c[1] and c[1][0] == cond['ns0'])) and cid not in MISMATCH_IDS:
                 stats['known'][name] += 1
@@ -767,6 +896,17 @@ def check_c15(res, tier, replay):
     for comp, f in findings.items():
         if stats['known'].get(comp):
             res.known_hit.append(known_line(f) + ' [%d cases]' % stats['known'][comp])
+    if not replay:
+        zi_n, zi_bad = check_int_indicators(res, rng, tier, 'C15')
+        stats['bad'] += zi_bad
+        res.coverage['integer_element_type_cases'] = zi_n
+    if not replay:
+        # the ranges hold however the value was put together: a struct literal filled in field by field (or a re-configured
+        # instance) must emit what the constructor-built instance of that configuration emits, whose values were judged above
+        from c_runtime import check_reconf
+        rc_n, rc_bad = check_reconf(res, rng, tier, ('IND',), 'C15', names=set(RANGE) | set(BANDS) | {'MovingMax', 'MovingMin'})
+        stats['bad'] += rc_bad
+        res.coverage['literal_and_reconfigured_instances'] = rc_n
     res.samples = [{'case': lines[i][:200] + '…'} for i in (0, len(lines) // 2)] if lines else []
     res.coverage.update({
         'evaluations': total, 'distinct_nontrivial': len(stats['cells']),
@@ -797,7 +937,7 @@ DEG = {
     'DonchianChannel': [(1, 0)] * 3, 'KeltnerChannel': [(1, 0)] * 3, 'MovingStd': [(1, 0)], 'PercentB': [(0, 0)],
     'Po': [(0, 0)], 'SuperTrend': [(1, 0)], 'UlcerIndex': [(0, 0)], 'Ad': [(0, 1)], 'Cmf': [(0, 0)], 'Emv': [(2, -1)],
     'Fi': [(1, 1)], 'Mfi': [(0, 0)], 'Mfm': [(0, 0)], 'Mfv': [(0, 1)], 'Nvi': [(0, 0)], 'Obv': [(0, 1)], 'Vpt': [(0, 1)],
-    'Vwap': [(1, 0)],
+    'Vwap': [(1, 0)], 'KeltnerChannelG': [(1, 0)] * 3, 'StochasticRsiG': [(0, 0)],
 }
 assert set(DEG) == set(CAT)
 
